@@ -23,7 +23,7 @@ for p in props:
         na.append(dict(property_id=pid, reason=NA.get(pid, PENDING)))
 M = dict(version=1, setup_cmd='./setup.sh',
     hooks=dict(guard='TEVADOR_RANDOMX_VERIF', enable='no source hooks are needed: checks lower /repo sources with clang -DTEVADOR_RANDOMX_VERIF (the define guards nothing at present)',
-               baseline_off_cmd='cmake --build /repo/_build && ctest --test-dir /repo/_build -j8 --timeout 900', source_commits=[], add_only=True),
+               baseline_off_cmd='cmake --build /repo/_build && /repo/_build/randomx-tests', source_commits=[], add_only=True),
     engines=[dict(name='irsym', path='/verif/engine/irsym.py', serves_properties=sorted(R.PROPS), kind_free_text='own symbolic interpreter for clang-14 LLVM IR producing z3 terms; forking by re-execution; chunk/array memory; C++ EH'),
              dict(name='x86sem', path='/verif/engine/x86sem.py', serves_properties=[p for p in ('C04', 'C08', 'C09', 'C06', 'C01') if p in R.PROPS], kind_free_text='x86-64 subset semantics for JIT output and the hand-written templates, validated against the host CPU')],
     checks=checks, not_applicable=na,
